@@ -294,6 +294,7 @@ VIS = {"inherited": "", "pub": "pub ", "pubcrate": "pub(crate) ", "pubsuper": "p
 # an attribute's arguments may be delimited by ( ), { } or [ ]: `#[strum{disabled}]` is the same attribute as `#[strum(disabled)]`
 _DELIMS = [("(", ")"), ("{", "}"), ("[", "]")]
 _DELIM_CYCLE = None       # set while rendering an item whose `attr_delims` asks for mixed delimiters
+_TRAILING = False         # set while rendering an item with `trailing_commas`
 
 
 def render_variant_attrs(v: Variant, indent="    ") -> str:
@@ -320,7 +321,7 @@ def render_variant_attrs(v: Variant, indent="    ") -> str:
         else:
             for g in split_groups(payload, gi):
                 o_, c_ = _DELIMS[0] if not _DELIM_CYCLE else _DELIM_CYCLE[len(lines) % len(_DELIM_CYCLE)]
-                lines.append("%s#[strum%s%s%s]" % (indent, o_, ", ".join(m.rust() for m in g), c_))
+                lines.append("%s#[strum%s%s%s%s]" % (indent, o_, ", ".join(m.rust() for m in g), "," if _TRAILING else "", c_))
     for m in v.dmetas:
         lines.append("%s#[strum_discriminants(strum(%s))]" % (indent, m.rust()))
     return "\n".join(lines)
@@ -351,7 +352,13 @@ def generics_decl(it: Item, bounds: str = "") -> Tuple[str, str, str]:
 
 def render_item(it: Item, derives: List[str], bounds: str = "", extra_attrs: List[str] = ()) -> str:
     """Rust source of the item with the given derive list (paths like `strum::EnumString`)."""
-    global _FRAGS, _DELIM_CYCLE
+    global _FRAGS, _DELIM_CYCLE, _TRAILING
+    if getattr(it, "trailing_commas", False) and not _TRAILING:
+        _TRAILING = True
+        try:
+            return render_item(it, derives, bounds, extra_attrs)
+        finally:
+            _TRAILING = False
     if getattr(it, "attr_delims", None) and _DELIM_CYCLE is None:
         _DELIM_CYCLE = [_DELIMS[i] for i in it.attr_delims]
         try:
@@ -395,6 +402,7 @@ def render_item(it: Item, derives: List[str], bounds: str = "", extra_attrs: Lis
         a = render_variant_attrs(v)
         if a:
             lines.append(a)
+        tc = "," if getattr(it, "trailing_commas", False) and v.fields else ""      # `One(u32,)`, `S { a: u8, }`: legal, and rustfmt's vertical layout
         if v.kind == "unit":
             body = v.ident
         elif v.kind == "tuple":
@@ -402,13 +410,13 @@ def render_item(it: Item, derives: List[str], bounds: str = "", extra_attrs: Lis
             for f in v.fields:
                 pre = "".join("#[strum(default_with = %s)] " % rust_str(d) for d in f.dws)
                 fs.append(pre + f.ty)
-            body = "%s(%s)" % (v.ident, ", ".join(fs))
+            body = "%s(%s%s)" % (v.ident, ", ".join(fs), tc)
         else:
             fs = []
             for f in v.fields:
                 pre = "".join("#[strum(default_with = %s)] " % rust_str(d) for d in f.dws)
                 fs.append("%s%s: %s" % (pre, f.name, f.ty))
-            body = "%s { %s }" % (v.ident, ", ".join(fs))
+            body = "%s { %s%s }" % (v.ident, ", ".join(fs), tc)
         if v.discr is not None:
             body += " = %s" % (v.discr_expr if v.discr_expr is not None else str(v.discr))
         lines.append("    %s," % body)
